@@ -1,6 +1,7 @@
 //! vcheck — bounded exhaustive checks of rust-rule-engine properties C01..C20.
 //! usage: vcheck <Cxx> --tier quick|thorough --out FILE [--replay FILE] [--only SUB]
 mod explore;
+mod isolate;
 mod props;
 mod report;
 mod util;
